@@ -396,7 +396,8 @@ pub fn obs_to_model(o: &Obs) -> J {
     match o {
         Obs::Ok(v) => json!({"ok": true, "v": to_model(v)}),
         Obs::Err { variant, payload, name, msg } => {
-            let mut j = json!({"ok": false, "variant": variant, "msg": msg});
+            // the message as code points, like every other text the specification sees
+            let mut j = json!({"ok": false, "variant": variant, "msg": cps(msg), "message": msg});
             if let Some(p) = payload {
                 j["p"] = to_model(p);
             }
